@@ -840,6 +840,19 @@ def k_alias_dup_header(f, rng):
     tgt.cells[b] = tgt.cells[a]
     e = Exp(r"Invalid headers provided for sheet: 'survey'\. Headers that are different names for the same column were found", "sheet", names=[a, b])
     e.column = a
+    if rng.random() < 0.5:
+        # the alias to the LEFT of the documented name: which of the two comes first must not matter
+        def patch(sheets, fmt):
+            h, rows = sheets["survey"]
+            if a in h and b in h and h.index(a) < h.index(b):
+                ia, ib = h.index(a), h.index(b)
+                h = list(h)
+                h[ia], h[ib] = h[ib], h[ia]
+                rows = [[(r[ib] if k == ia else (r[ia] if k == ib else c)) for k, c in enumerate(r)] for r in rows]
+                sheets["survey"] = (h, rows)
+            return sheets
+        e.patch = patch
+        e.sub = "alias-first"
     return e
 
 
